@@ -4,7 +4,7 @@
 set -u
 ID="$1"
 SEED="${VERIF_SEED:-0}"; [ "$SEED" = "0" ] && SEED=1   # libFuzzer: 0 means random
-RUNS="${VERIF_FUZZ_RUNS:-60000}"
+RUNS="${VERIF_FUZZ_RUNS:-10000}"
 JOBS="${VERIF_FUZZ_JOBS:-8}"
 export CARGO_NET_OFFLINE=true
 cd /verif/fuzz || exit 2
